@@ -252,7 +252,8 @@ def _ancestors_of(node: ast.AST):
 
 def _carrier_branch(func: ast.AST) -> Optional[ast.If]:
     for node in walk_local(func):
-        if isinstance(node, ast.If) and txt(node.test) == "component.is_carrier_protein()":
+        if isinstance(node, ast.If) and (txt(node.test) == "component.is_carrier_protein()"
+                                         or txt(inline_reaching(CFG(func), node, node.test)) == "component.is_carrier_protein()"):
             return node
     return None
 
@@ -392,8 +393,6 @@ def r14_5(ctx: Ctx) -> None:
     qual = "combine_modules"
     func = ctx.fn(MI, qual)
     cfg = CFG(func)
-    incomplete = [n for n in walk_local(func) if isinstance(n, ast.If) and txt(n.test) == "not module.is_complete()"
-                  and any(isinstance(s, ast.Return) and txt(s.value) == "None" for s in n.body)]
     mutations = []
     for node in walk_local(func):
         if isinstance(node, ast.Assign) and any(".modules[" in txt(t) for t in node.targets):
@@ -401,11 +400,15 @@ def r14_5(ctx: Ctx) -> None:
         if isinstance(node, ast.Call) and isinstance(node.func, ast.Attribute) and node.func.attr in ("pop", "append", "insert", "remove") \
                 and txt(node.func.value).endswith(".modules"):
             mutations.append(node)
-    ok = len(incomplete) == 1 and len(mutations) >= 2 and all(cfg.dominates(cfg.n(incomplete[0]), cfg.n(m)) for m in mutations)
-    ctx.ob("R14.5", MI, incomplete[0] if incomplete else func, qual, "complete before replacing", ok,
+    merged = {t.id for n in walk_local(func) if isinstance(n, ast.Assign) and isinstance(n.value, ast.Call) and call_name(n.value) == "Module"
+              for t in n.targets if isinstance(t, ast.Name)}
+    facts = {id(m): nnf_literals(facts_nnf(path_facts(cfg, m))) for m in mutations}
+    ok = len(merged) == 1 and len(mutations) >= 2 and all((f"{sorted(merged)[0]}.is_complete()", True) in facts[id(m)] for m in mutations)
+    ctx.ob("R14.5", MI, mutations[0] if mutations else func, qual, "complete before replacing", ok,
            "the gene's module lists are modified only after the merged module was found complete", form=f"{len(mutations)} list mutations")
-    ok = any(isinstance(n, ast.If) and "strand" in txt(n.test) and "!=" in txt(n.test)
-             and any(isinstance(s, ast.Return) and txt(s.value) == "None" for s in n.body) for n in walk_local(func))
+    results = [r for r in walk_local(func) if isinstance(r, ast.Return) and r.value is not None and txt(r.value) != "None"]
+    ok = bool(results) and all(any(truth and "strand" in text and "==" in text for text, truth in nnf_literals(facts_nnf(path_facts(cfg, n))))
+                               for n in results + mutations)
     ctx.ob("R14.5", MI, func, qual, "same strand only", ok, "genes on different strands are never merged", form="")
     # order: head components first, then tail components
     cur, prev = func.args.args[0].arg, func.args.args[1].arg
